@@ -51,35 +51,9 @@ def expected_files(suffix, files):
     return sorted([f for f in plain if base_name(f) not in replaced] + with_suffix)
 
 
-@lemma(gen={"mask": (0, 1023), "w": (0, 2)})
-def files_to_merge_are_one_per_xs_id_also_with_a_directory(mask: int, w: int):
-    """getISOTXSLibrariesToMerge as mergeXSLibrariesInWorkingDirectory calls it - with the paths glob returns, i.e.
-    directory + name - for every subset of the ten names of contracts/C10_files.py and the suffixes '', '-n2', '-n1'.
-    REFUTED: the test that drops the plain file of an XS id that has a suffixed file compares the FULL path with a base
-    name, so it never fires; ISOAA and ISOAA-n2 are both selected and the merge of the two collides."""
-    mask = choose(mask, 0, 1023)
-    w = choose(w, 0, 2)
-    files = ["/work/run1/" + POOL[i] for i in range(len(POOL)) if (mask // (2 ** i)) % 2 == 1]
-    got = xsl.getISOTXSLibrariesToMerge(WANTED[w], list(files))
-    assert sorted(got) == expected_files(WANTED[w], files), "per XS id: the suffixed file, else the plain one"
-    ids = [base_name(f)[3:5] for f in got]
-    assert len(ids) == len(set(ids)), "at most one file per XS id"
 
 
 # ----------------------------------------------------------------------------- empty multiplier library
-@lemma
-def empty_multiplier_library_is_not_no_multiplier_library(n1: float, a1: float, a2: float, z: float):
-    """computeMacroscopicGroupConstants(..., multConstant, multLib) - 'multLib: library to obtain the multiplier from.
-    If None, same library as base cross section is used' - with a multiplier library that holds NO nuclide: every
-    nuclide lacks a multiplier there, so nothing may be summed (a nuclide missing from a non-empty multLib is skipped).
-    REFUTED: `if multLib:` is False for an empty library (its length is 0), and the multiplier z is silently taken
-    from the base library."""
-    assume(n1 != 0 and a1 != 0 and z != 0)
-    mic = new(Micro, fission=np.array([a1, a2]), neutronsPerFission=np.array([z, z]))
-    lib = new(SizedLibrary, nuclides={"A" + SFX: new(Nuclide, name="A", micros=mic, isotxsMetadata={})})
-    m = xsc.computeMacroscopicGroupConstants("fission", {"A": n1}, lib, SFX, libType="micros", multConstant="neutronsPerFission",
-                                             multLib=new(SizedLibrary, nuclides={}))
-    assert m is None or eq(m[0], 0.0), "no multiplier data: no contribution"
 
 
 # ----------------------------------------------------------------------------- higher-order scatter data
@@ -96,17 +70,6 @@ class DenseSparse:
         return isinstance(x, Mat)
 
 
-@lemma(overrides={"armi.nuclearDataIO.xsCollections:sparse": "DenseSparse"})
-def collections_with_different_higher_order_scatter_compare_unequal(x: float, y: float, withB: bool):
-    """XSCollection.compare on two collections that agree in everything but their higher-order (P1) scatter data -
-    entry x on one side, y (or no P1 data at all) on the other: equal exactly when the data agree.  REFUTED: for
-    higherOrderScatter compare walks zip(dictA, dictB), i.e. pairs of KEYS; the matrices are never looked at, and a
-    side without data ends the walk at once."""
-    A, B = XSCollection(parent=None), XSCollection(parent=None)
-    A.fission, B.fission = np.array([1.0, 2.0]), np.array([1.0, 2.0])
-    A.higherOrderScatter = {1: x}
-    B.higherOrderScatter = {1: y} if withB else {}
-    assert A.compare(B, None) == (withB and x == y)
 
 
 @lemma
@@ -197,22 +160,5 @@ def merge_directory_case(directory, mask, w, have=0):
         assert eq(velocities[n[3:5]], v), "the velocity of the file of that XS id"
 
 
-@lemma(gen={"mask": (0, 63), "w": (1, 2)}, stubs=READ_STUBS, overrides={"armi.nuclearDataIO.xsLibraries:glob": "GlobStandIn"})
-def directory_merge_reads_one_file_per_xs_id_also_when_plain_and_suffixed_files_exist(mask: int, w: int):
-    """mergeXSLibrariesInWorkingDirectory (stand-ins: glob, isotxs.readBinary, the target library) for EVERY subset of
-    the six library names ISOAA, ISOAB, ISOBA, ISOAA-n2, ISOBA-n2, ISOAB-n1 and the suffixes '-n2', '-n1': one file per
-    XS id is merged.  REFUTED whenever the directory holds ISOxx and ISOxx<suffix>: both are read and merged (on the
-    real libraries the second merge then fails with AttributeError 'cross sections overlap')."""
-    mask = choose(mask, 0, 63)
-    w = choose(w, 1, 2)
-    merge_directory_case("/work/run1", mask, w)
 
 
-@lemma(gen={"mask": (1, 7)}, stubs=READ_STUBS, overrides={"armi.nuclearDataIO.xsLibraries:glob": "GlobStandIn"})
-def xs_id_of_a_file_does_not_depend_on_the_directory_name(mask: int):
-    """the same for the plain files ISOAA, ISOAB, ISOBA (every non-empty subset) in a working directory called
-    /work/ISOLDE-study.  REFUTED: the XS id is taken with re.search('ISO([A-Z0-9a-z]{2})') from the whole PATH, so
-    every file gets the id 'LD' of the directory: one velocity entry instead of one per library (and, on the real
-    code, GAMISO / PMATRX / dummy-nuclide file names built from the wrong id)."""
-    mask = choose(mask, 1, 7)
-    merge_directory_case("/work/ISOLDE-study", mask, 0)
